@@ -126,6 +126,7 @@ func TestC19Wire(t *testing.T) {
 			if err != nil {
 				fail("state.unreadable", "database unreadable before the request: %v", err)
 			}
+			kit.StartMemGuard(c19MemoryGuard)
 			done := kit.InFlight("C19", "panic.server-process", kase)
 			reply, rpcErr := peer.Transact(s.Name, raw)
 			var echoed []interface{}
